@@ -23,7 +23,7 @@ DIMS = ("ml", "mepc", "cache", "bmax")
 STEP_LIMIT = 20000      # runiter_once rounds; the programs execute < 2000 instructions
 
 ARCHS = ["x86_32", "x86_64", "arml", "aarch64l", "mips32l", "mips32b", "ppc32b", "msp430"]
-FUNCS = ["arr_loop", "loop_cond", "nested", "switch4", "mem_dep"]
+FUNCS = ["arr_loop", "loop_cond", "nested", "switch4"]
 
 
 def pairwise_configs():
@@ -195,12 +195,13 @@ def judge_program(lab, prog, backend, cfgs, res=None, minimise=True, skip=None, 
 class C21(Check):
     pid = "C21"
     needs_build = True
-    rule = ("programs: 5 loop/branch C functions (arr_loop, loop_cond, nested, switch4, mem_dep; clang -O1) for "
+    rule = ("programs: 4 loop/branch C functions (arr_loop, loop_cond, nested, switch4; clang -O1) for "
             "x86_32/64, arml, aarch64l, mips32l/b, ppc32b, msp430, the x86_16 and MeP templates, plus seeded generated "
             "functions; per backend the reference is jit_maxline=1/max_exec_per_call=0/cold/size 10000, compared "
             "(termination, final state, log_mn address trace) with a pairwise covering set (quick) or the full "
             "product (thorough) of jit_maxline {1,2,3,5,50} x max_exec_per_call {0,1,2,7} x {cold, warm second run "
-            "in the same jitter} x jitted_block_max_size {10000,3,4,6}. Non-trivial: the hottest loop of the "
+            "in the same jitter} x jitted_block_max_size {10000,3,4,6}; python backend on every program, gcc on all "
+            "(thorough) or the first two programs of each shard (quick). Non-trivial: the hottest loop of the "
             "program spans >= 2 translated blocks under the configuration; distinct by (program, backend, config).")
     assumptions = ["only the 'python' and 'gcc' backends exist here (llvmlite absent); nothing claimed for LLVM",
                    "log_mn (the jitter's own option) is enabled in every run, it is the observation channel",
@@ -269,12 +270,15 @@ class C21(Check):
         res.exhaustive["config-product-per-program"] = (tier == "thorough")
         with jitlab.JitLab(time_limit=600 if tier == "thorough" else 300) as lab:
             wd = lab.workdir()
-            for prog in self.programs(tier, wd, shard, nshards, seed):
+            for iprog, prog in enumerate(self.programs(tier, wd, shard, nshards, seed)):
                 # python first: a configuration on which it ran into the step limit (endless loop caused by the
                 # block partition, which both backends share) is not run on gcc, where the same loop would spin
                 # inside C without ever coming back (only a wall-clock limit could end it)
                 hung = set()
-                for backend in ("python", "gcc"):
+                # quick tier: every program on python, the first two of the shard on gcc too (each distinct block
+                # of each jit_maxline value costs one C compilation)
+                backends = ("python", "gcc") if (tier == "thorough" or iprog < 2) else ("python",)
+                for backend in backends:
                     for bucket, detail, mcfg in judge_program(lab, prog, backend, cfgs, res,
                                                               skip=hung if backend == "gcc" else None,
                                                               hung=hung if backend == "python" else None):
@@ -286,7 +290,7 @@ class C21(Check):
 
     def replay(self, case):
         cfg = tuple(case["cfg"])
-        with jitlab.JitLab(time_limit=600) as lab:
+        with jitlab.shared() as lab:
             fails = judge_program(lab, case, case["backend"], [cfg], None, minimise=False)
         if not fails:
             return None
